@@ -80,6 +80,38 @@ def sweep(h, rep, jobs, label, stats, on_result=None, max_report=3):
         judge.close()
     return out
 
+def expectation_stage(rep, tier, seed, label, want=lambda meta: True):
+    """programs of progs.py whose expected output and result are computed by the generator from the language rules, independently of
+    the implementation: run on the real pipeline and compared.  -> stats"""
+    h = vm_corr.VmHarness()
+    st = dict(programs=0, agree=0, bad=0)
+    try:
+        rounds = 2 if tier == "quick" else 12
+        for r in range(rounds):
+            for (name, src, meta) in progs.generate(seed * 7919 + 5 + r, 1):
+                if not meta.get("shape") or not want(meta):
+                    continue
+                st["programs"] += 1
+                run = h.run(src=src, args=["3"], trace=False, timeout=60)
+                io = vm_corr.impl_outcome(run)
+                out = run["out"].decode("latin-1")
+                res = None
+                for l in io["execs"]:
+                    m = re.search(r"result=(\S+)", l)
+                    if m: res = m.group(1)
+                ok = io["kind"].startswith("return") and out == meta["expect_out"] and res == meta["expect_res"]
+                h.cleanup(run)
+                if ok:
+                    st["agree"] += 1
+                else:
+                    st["bad"] += 1
+                    if st["bad"] <= 3:
+                        rep.violation("%s_%s_r%d" % (label, name, r), "# the compiled program does not compute what the evaluation rules say\n# expected output %r result %s\n# observed %s output %r result %s\n# stderr: %s\n%s"
+                                      % (meta["expect_out"], meta["expect_res"], io["kind"], out, res, run["err"][-400:].replace("\n", "\n# "), src), True)
+    finally:
+        h.close()
+    return st
+
 def sample_jobs(limit=None, **cfg):
     fs = vm_corr.sample_programs()
     if limit:
